@@ -21,6 +21,12 @@ MatMulCase(a, b, dt) ==
    LET X == Iota(dt, a, 0) Y == Iota(dt, b, 0) s == SemMatMul(X, Y) IN
    [CaseRec("matmul", "MatMul", <<>>, <<X, Y>>, s, <<Tag(s), dt>> \o MMFeat(a, b)) EXCEPT !.known = KnownMatMul(X, Y)]
 
+\* operands whose products and sums need more than the 24 significant bits of a float32 (exact in float64 and in the 64-bit integers,
+\* exact as TLC integers): a product formed or accumulated in a narrower type than the declared one shows
+WideMatMulCase(dt) ==
+   LET X == T(dt, <<2, 3>>, <<4097, -4099, 3, 4101, 5, 4103>>) Y == T(dt, <<3, 2>>, <<4099, 4097, 4105, -4097, 1, 4099>>) s == SemMatMul(X, Y) IN
+   [CaseRec("matmul", "MatMul", <<>>, <<X, Y>>, s, <<Tag(s), dt, "products_beyond_24_bits">>) EXCEPT !.known = KnownMatMul(X, Y)]
+
 \* Gemm
 AlphaBeta == IF GemmFull
              THEN {<<x, y>> : x \in {Fin(0), Fin(1), Fin(2), Fin(-1), Rat(1, 2)}, y \in {Fin(0), Fin(1), Fin(2), Fin(-1), Rat(1, 2)}}
@@ -169,7 +175,7 @@ Emit ==
    /\ ~st.done
    /\ CASE st.fam = "matmul" -> P(MatMulCase(st.a, st.b, "f32"))
         [] st.fam = "matmul_dt" -> \A p \in {<<<<2, 3>>, <<3, 2>>>>, <<<<3>>, <<2, 3, 2>>>>, <<<<2, 1, 2, 3>>, <<3, 3, 1>>>>, <<<<3>>, <<3>>>>, <<<<2, 2>>, <<3, 2>>>>} :
-                                      P(MatMulCase(p[1], p[2], st.dt))
+                                      P(MatMulCase(p[1], p[2], st.dt)) /\ (st.dt \in {"f64", "i64"} => P(WideMatMulCase(st.dt)))
         [] st.fam = "gemm" ->
               /\ \A ab \in AlphaBeta, ck \in CKinds : P(GemmCase(st.tA, st.tB, ab, ck, st.M, st.K, st.N, "f32", FALSE))
               /\ (~st.tA /\ ~st.tB => \A ck \in {"absent", "N"} : P(GemmCase(FALSE, FALSE, <<Fin(1), Fin(1)>>, ck, st.M, st.K, st.N, "f32", TRUE)))
